@@ -11,6 +11,7 @@ from .debug_info import DebugInfo
 from .cell import CellType
 from .eval import QvmEval, EvalError
 from .cpu import HaltReason
+from .trap import TrapCode
 
 
 class Breakpoint:
@@ -281,10 +282,20 @@ Type help or ? to list commands.
 
         return f'{prefix}{i_addr:08x}: {instr.op: <12}{operands_list}'
 
+    def current_addr(self):
+        # After a run-time error the machine has halted behind the
+        # failing instruction, which may already be the next statement;
+        # the statement to show is the one that failed.
+        if self.cpu.halted and \
+           self.cpu.halt_reason == HaltReason.TRAP and \
+           self.cpu.last_trap != TrapCode.KEYBOARD_INTERRUPT:
+            return self.cpu.trapped_addr
+        return self.cpu.pc
+
     def get_current_bt(self):
         frames = []
         frame = self.cpu.cur_frame
-        stmt_addr = self.cpu.pc
+        stmt_addr = self.current_addr()
         while frame:
             frame_info = {}
             routine = self.find_routine(frame.code_start)
@@ -398,7 +409,7 @@ Type help or ? to list commands.
         """
         Show current source statement with some context.
         """
-        stmt = self.find_nonempty_stmt(self.cpu.pc)
+        stmt = self.find_nonempty_stmt(self.current_addr())
         reasons = [HaltReason.INSTRUCTION, HaltReason.END_OF_CODE]
         if stmt is None and self.cpu.halted and \
            self.cpu.halt_reason in reasons:
